@@ -43,6 +43,7 @@ type lruRec struct {
 	deleted  []pkVid
 	nextVid  int
 	staleVid map[int]bool
+	nilVid   map[int]int                    // "ptr" variant: the value id of the nil value created last for a key
 	items    map[int]lru.ExpirableItem[int] // expirable: the item made for each vid
 	now      time.Time
 }
@@ -99,6 +100,35 @@ func (o lruCacheObj) GetOrCreate(pk int) (int, error) { return o.c.GetOrCreate(l
 func (o lruCacheObj) Remove(pk int) bool              { return o.c.Remove(lruKeyStr(pk)) }
 func (o lruCacheObj) Clear() int                      { return o.c.Clear() }
 
+// ---- lru.Cache[string, lruVal]: values are of an INTERFACE type; one creation in three succeeds with the nil
+// interface, one with a nil pointer inside the interface, one with a real value (nil is a value like any other: it is
+// resident, found again, evicted and reported to the delete callback)
+type lruVal interface{ Vid() int }
+type lruBox struct{ vid int }
+
+func (b *lruBox) Vid() int { return b.vid }
+
+type lruPtrObj struct {
+	c *lru.Cache[string, lruVal]
+	r *lruRec
+}
+
+func (o lruPtrObj) vid(pk int, b lruVal) int {
+	if p, _ := b.(*lruBox); p != nil {
+		return p.vid
+	}
+	return o.r.nilVid[pk]
+}
+func (o lruPtrObj) GetOrCreate(pk int) (int, error) {
+	b, err := o.c.GetOrCreate(lruKeyStr(pk))
+	if err != nil {
+		return 0, err
+	}
+	return o.vid(pk, b), nil
+}
+func (o lruPtrObj) Remove(pk int) bool { return o.c.Remove(lruKeyStr(pk)) }
+func (o lruPtrObj) Clear() int         { return o.c.Clear() }
+
 // ---- lru.ECache[string, string, int] with strings.ToLower ------------------
 type lruECacheObj struct {
 	c *lru.ECache[string, string, int]
@@ -147,6 +177,37 @@ func newLruObj(variant string, capacity int, nilCreate, nilDelete bool) (lruObj,
 	}
 	deleteInt := func(k string, v int) { r.deleted = append(r.deleted, pkVid{lruKeyInt(k), v}) }
 	switch variant {
+	case "ptr":
+		o := lruPtrObj{r: r}
+		r.nilVid = map[int]int{}
+		cf := lru.CreatePoolElemF[string, lruVal](func(k string) (lruVal, error) {
+			v, err := createInt(k)
+			if err != nil {
+				return nil, err
+			}
+			switch v % 3 {
+			case 0:
+				r.nilVid[lruKeyInt(k)] = v
+				return nil, nil
+			case 1:
+				r.nilVid[lruKeyInt(k)] = v
+				return (*lruBox)(nil), nil
+			}
+			return &lruBox{v}, nil
+		})
+		df := lru.OnDeleteElemF[string, lruVal](func(k string, b lruVal) { deleteInt(k, o.vid(lruKeyInt(k), b)) })
+		if nilCreate {
+			cf = nil
+		}
+		if nilDelete {
+			df = nil
+		}
+		c, err := lru.NewCache[string, lruVal](capacity, cf, df)
+		if err != nil {
+			return nil, r, err
+		}
+		o.c = c
+		return o, r, nil
 	case "cache":
 		cf, df := lru.CreatePoolElemF[string, int](createInt), lru.OnDeleteElemF[string, int](deleteInt)
 		if nilCreate {
@@ -439,6 +500,7 @@ func replayLRU(b Behaviour, opt *Options) *Failure {
 		return &Failure{Step: 0, Sig: "harness: lru behaviour does not start with New"}
 	}
 	if b[0].Bool("alias") != (variant == "ecache") || b[0].Bool("expirable") != (variant == "expirable") {
+		// ("ptr" replays the behaviours of the plain cache)
 		return &Failure{Step: 0, Sig: "harness: lru behaviour was generated for another variant"}
 	}
 	if lruHung.Load() >= 1 {
@@ -546,12 +608,12 @@ func driveLRU(opt *Options) error {
 	if s, ok := opt.Extra["steps"]; ok {
 		fmt.Sscan(s, &steps)
 	}
-	variants := []string{"cache", "ecache", "expirable"}
+	variants := []string{"cache", "ecache", "expirable", "ptr"}
 	for t := 0; t < opt.N; t++ {
 		if lruHung.Load() > 0 {
 			break // a call never returned (recorded as a crash line): its goroutine still spins, stop here
 		}
-		variant := variants[t%3]
+		variant := variants[t%4]
 		nilDelete := t%11 == 10
 		c := caps[rnd.Intn(len(caps))]
 		steps := steps
